@@ -2,6 +2,7 @@ package sym
 
 import (
 	"fmt"
+	"math/rand"
 	"os"
 	"sort"
 	"strings"
@@ -95,6 +96,8 @@ type HarnessResult struct {
 	CrossQueries []CrossQuery
 	Outs         [][]string
 	SchedStates, SchedTransitions, SchedValidated int
+	RandTape    []TapeEntry
+	RandOutcome string
 }
 
 // CrossQuery is a sampled assertion query kept for re-checking by other solvers.
@@ -113,6 +116,7 @@ type Explorer struct {
 	TimeoutMs int
 	Deadline time.Time
 	Verbose  bool
+	RandSeed int64 // != 0: single random-concrete run (translator validation)
 
 	mu      sync.Mutex
 	cond    *sync.Cond
@@ -225,6 +229,9 @@ func (ex *Explorer) worker(id int) {
 		in.ex = ex
 		in.solver = solver
 		in.path = &Path{prefix: prefix, reached: map[string]bool{}}
+		if ex.RandSeed != 0 {
+			in.rand = rand.New(rand.NewSource(ex.RandSeed))
+		}
 		in.runHarness(ex.Fn)
 		solver.PopTo(0)
 		ex.collectPath(in)
@@ -306,6 +313,22 @@ func (ex *Explorer) collectPath(in *Interp) {
 			"harness": ex.Fn.Name(), "decisions": dl, "assert": last.Label,
 			"verdict": last.Verdict, "ms": last.Ms, "status": p.status, "pc_terms": len(p.pc), "query_dag_size": last.Size,
 		})
+	}
+	if in.rand != nil {
+		r.RandTape = p.tape
+		switch {
+		case len(p.viols) > 0:
+			r.RandOutcome = "assert-failed " + p.viols[0].Label
+			if p.viols[0].Kind != "assert" {
+				r.RandOutcome = p.viols[0].Kind
+			}
+		case p.status == "ok":
+			r.RandOutcome = "pass"
+		case p.status == "end:assume":
+			r.RandOutcome = "not-a-model"
+		default:
+			r.RandOutcome = p.status + " " + p.statusMsg
+		}
 	}
 	if in.thread != nil && in.thread.trace != nil {
 		r.Traces = append(r.Traces, in.thread.trace)
@@ -403,6 +426,13 @@ func (in *Interp) choice(n int, what string) int {
 		return 0
 	}
 	p := in.path
+	if in.rand != nil {
+		k := in.rand.Intn(n)
+		if what == "verifChoice" {
+			in.tapeAdd(TapeEntry{Kind: "choice", Vals: []uint64{uint64(k)}, Note: what})
+		}
+		return k
+	}
 	if p.replaying() {
 		d := p.prefix[p.pos]
 		p.pos++
@@ -538,8 +568,50 @@ func (in *Interp) tapeAdd(e TapeEntry) {
 	in.path.tape = append(in.path.tape, e)
 }
 
+// freshBytes creates n fresh byte symbols as one tape entry.
+func (in *Interp) freshBytes(n int) []*Term {
+	p := in.path
+	e := TapeEntry{Kind: "bytes"}
+	b := make([]*Term, n)
+	for i := range b {
+		if in.rand != nil {
+			v := uint64(in.rand.Intn(256))
+			if in.rand.Intn(4) == 0 {
+				v = []uint64{0, '/', '.', 0xff}[in.rand.Intn(4)]
+			}
+			b[i] = in.tc.BV(8, v)
+			e.Vals = append(e.Vals, v)
+			continue
+		}
+		p.nvars++
+		b[i] = in.tc.Var(fmt.Sprintf("n%d_b", p.nvars), 8)
+		e.vars = append(e.vars, b[i])
+	}
+	in.tapeAdd(e)
+	return b
+}
+
 func (in *Interp) freshScalar(kind string, w int) *Term {
 	p := in.path
+	if in.rand != nil {
+		v := in.rand.Uint64()
+		switch in.rand.Intn(6) {
+		case 0:
+			v = 0
+		case 1:
+			v = ^uint64(0)
+		case 2:
+			v = uint64(in.rand.Intn(16))
+		}
+		if w == 0 {
+			v &= 1
+			in.tapeAdd(TapeEntry{Kind: kind, Vals: []uint64{v}})
+			return in.tc.Bool(v == 1)
+		}
+		v &= mask(w)
+		in.tapeAdd(TapeEntry{Kind: kind, Vals: []uint64{v}})
+		return in.tc.BV(w, v)
+	}
 	p.nvars++
 	name := fmt.Sprintf("n%d_%s", p.nvars, kind)
 	v := in.tc.Var(name, w)
@@ -570,7 +642,7 @@ func (in *Interp) snapshotTape() []TapeEntry {
 	out := make([]TapeEntry, len(p.tape))
 	for i, e := range p.tape {
 		out[i] = TapeEntry{Kind: e.Kind, Note: e.Note}
-		if e.Kind == "choice" {
+		if e.Kind == "choice" || len(e.vars) == 0 {
 			out[i].Vals = e.Vals
 			continue
 		}
